@@ -312,6 +312,10 @@ def simplify(scenario):
     if scenario["kind"] == "xy":
         from tesim.props import c18
         for c in c18.simplify(scenario):
+            # the premise of the tabular clause must survive minimisation: transformer and reward scale fitted up to a date <= t
+            te = c["kwargs"].get("transformer_end")
+            if te is None or te > c["cut"] or c["cut"] not in c["tables"]["dates"]:
+                continue
             yield c
         return
     from tesim.props import c04
